@@ -172,7 +172,7 @@ fn is_children_empty(children: &[Node]) -> bool {
     for n in children {
         match n {
             Node::Comment(..) => {}
-            // (a text that is printed as nothing or as blanks, like `{{ "" }}` or `{{ " " }}`, reads back as no child)
+            // (a text that is printed as nothing or as blanks, like `{{ "" }}`, reads back as no child)
             Node::Text(value) if is_blank_value(value) => {}
             Node::Element(..) | Node::Text(..) | Node::UnknownMetaTag(..) => {
                 return false;
@@ -196,8 +196,9 @@ fn is_blank_value(value: &Value) -> bool {
     let blank = |s: &str| s.chars().all(|c| matches!(c, ' ' | '\x09'..='\x0D'));
     match value {
         Value::Static { value, .. } => blank(value),
+        // (a white-space-only literal is printed as a binding, `{{ " " }}`, and stays a child)
         Value::Dynamic { expression, .. } => {
-            matches!(&**expression, Expression::LitStr { value, .. } if blank(value))
+            matches!(&**expression, Expression::LitStr { value, .. } if value.is_empty())
         }
     }
 }
